@@ -140,7 +140,7 @@ fn mixed(s: &str) -> String {
 
 pub fn run(ctx: &Ctx) -> i32 {
     let _ = super::variant::measured();
-    let max_len = ctx.tier.pick(5, 6);
+    let max_len = ctx.tier.pick(5, 7);
     let k = SIGMA.len();
     let mut offsets = Vec::new();
     let mut total = 0usize;
